@@ -60,6 +60,11 @@ func termString(v ssa.Value, sizes types.Sizes, minWidth *int64) string {
 	case *ssa.TypeAssert:
 		note(x.AssertedType)
 		return "assert(" + termString(x.X, sizes, minWidth) + ")"
+	case *ssa.Call:
+		if bi, ok := x.Common().Value.(*ssa.Builtin); ok && bi.Name() == "len" && len(x.Common().Args) == 1 {
+			var w int64
+			return "len(" + termString(x.Common().Args[0], sizes, &w) + ")"
+		}
 	case *ssa.BinOp:
 		return "(" + termString(x.X, sizes, minWidth) + " " + x.Op.String() + " " + termString(x.Y, sizes, minWidth) + ")"
 	case *ssa.UnOp:
